@@ -786,6 +786,7 @@ func engineStageResultsUsed(p *Prog, r *Report, rule string) {
 		}
 		seen[originOf(fn)] = true
 		idx := 0
+		var firstStageTaint map[ssa.Value]bool
 		forEachCallOwn(fn, func(site ssa.CallInstruction) {
 			c, ok := site.(*ssa.Call)
 			if !ok {
@@ -820,6 +821,27 @@ func engineStageResultsUsed(p *Prog, r *Report, rule string) {
 				}
 			}
 			r.Check(rule, fmt.Sprintf("model.UpdateList|stage#%d:%s", idx, p.StableName(callee)), used, p.InstrPos(c), "the list this stage returns reaches the engine's result")
+			// every stage works on the list the stages before it left: the list handed to a later stage derives from
+			// the result of the first (delete) stage — a stage that still gets the list as it was before the delete
+			// brings the deleted items back
+			var listArg ssa.Value
+			for _, a := range c.Call.Args {
+				if _, isSl := a.Type().Underlying().(*types.Slice); isSl && types.Identical(a.Type(), res.At(0).Type()) {
+					listArg = a
+					break
+				}
+			}
+			if idx == 1 {
+				if c.Referrers() != nil {
+					for _, ref := range *c.Referrers() {
+						if ex, isEx := ref.(*ssa.Extract); isEx && ex.Index == 0 {
+							firstStageTaint = forwardTaint(ex)
+						}
+					}
+				}
+			} else if listArg != nil && firstStageTaint != nil {
+				r.Check(rule, fmt.Sprintf("model.UpdateList|stage#%d:%s|works-on-current-list", idx, p.StableName(callee)), firstStageTaint[listArg], p.InstrPos(c), "the list this stage works on ("+Path(listArg)+") is what the delete stage left (where it ran)")
+			}
 		})
 	}
 	r.Floor(rule, "stage calls of the engine", n, 3)
